@@ -1,8 +1,9 @@
 use engine::Property;
 pub mod c03;
 pub mod c04;
+pub mod c09;
 pub mod ef;
 
 pub fn properties() -> Vec<Box<dyn Property>> {
-    vec![Box::new(c03::C03), Box::new(c04::C04)]
+    vec![Box::new(c03::C03), Box::new(c04::C04), Box::new(c09::C09)]
 }
